@@ -66,5 +66,8 @@ def blacklist(context, config):
         for check in blacklists[node_type]:
             for name in context.node.names:
                 for qn in check["qualnames"]:
-                    if (prefix + name.name).startswith(qn):
+                    fullname = prefix + name.name
+                    # match the module itself or one of its submodules, not
+                    # every module whose name merely starts with the same text
+                    if fullname == qn or fullname.startswith(qn + "."):
                         return report_issue(check, name.name)
